@@ -495,12 +495,15 @@ def hostsOfPaths (l : List HPath) : List Str := C04.hostsOf (insEntries (rulesOf
 def Cfg.iter0 (c : Cfg) : Iter :=
   ⟨hostsOfPaths (httpPaths c), hostsOfPaths (httpsPaths c), hostsOfPaths (dfltPaths c)⟩
 
-/-- the iteration order "hostnames sorted" (what `rebuildMatchFiles` would use if it iterated the
-hosts of a map in a stable order) -/
+/-- the iteration order of `rebuildMatchFiles` after repair 8cccd42: hostnames sorted -/
 def sortedHosts (l : List HPath) : List Str := sortBy ltStr (hostsOfPaths l)
 
 def Cfg.iterSorted (c : Cfg) : Iter :=
   ⟨sortedHosts (httpPaths c), sortedHosts (httpsPaths c), sortedHosts (dfltPaths c)⟩
+
+/-- the routing of the generated configuration (code after 8cccd42: the layout of the map files is a
+function of the configuration alone) -/
+def routeS (c : Cfg) (r : Req) : Str := route c c.iterSorted r
 
 /-! ## crt-list (C15) -/
 
